@@ -354,7 +354,7 @@ func (p *parser) parseIPv6(u *Url, input *inputString) (string, error) {
 }
 
 func (p *parser) parseOpaqueHost(u *Url, input string) (string, error) {
-	output := ""
+	var output strings.Builder
 	for i, c := range input {
 		if ForbiddenHostCodePoint.Test(uint(c)) {
 			if p.opts.laxHostParsing {
@@ -371,7 +371,12 @@ func (p *parser) parseOpaqueHost(u *Url, input string) (string, error) {
 			}
 		}
 		if c == '%' {
-			invalidPercentEncoding, d := remainingIsInvalidPercentEncoded([]rune(input[i:]))
+			// only the next three code points matter: do not copy the whole remaining input
+			end := i + 3*utf8.UTFMax
+			if end > len(input) {
+				end = len(input)
+			}
+			invalidPercentEncoding, d := remainingIsInvalidPercentEncoded([]rune(input[i:end]))
 			if invalidPercentEncoding {
 				if err := p.handleErrorWithDescription(u, errors.InvalidURLUnit, false, d); err != nil {
 					return "", err
@@ -379,9 +384,9 @@ func (p *parser) parseOpaqueHost(u *Url, input string) (string, error) {
 			}
 		}
 
-		output += p.percentEncodeRune(c, C0PercentEncodeSet)
+		output.WriteString(p.percentEncodeRune(c, C0PercentEncodeSet))
 	}
-	return output, nil
+	return output.String(), nil
 }
 
 type IPv6Addr [8]uint16
